@@ -17,6 +17,7 @@ import (
 	"net/http/httptest"
 	"net/url"
 	"os"
+	"reflect"
 	"strings"
 	"sync"
 	"time"
@@ -89,9 +90,11 @@ func dialerTrickWorks() bool {
 
 type trFields struct {
 	rht, idle, maxidle, dial, keepalive int64
+	other                               int64 // how many other limit fields of http.Transport are set
 	hasTLS                              bool
 	serverName                          string
 	skip                                bool
+	otherNames                          []string
 }
 
 func fieldsOf(tr *http.Transport, dialOK bool, want limits) trFields {
@@ -106,6 +109,21 @@ func fieldsOf(tr *http.Transport, dialOK bool, want limits) trFields {
 	if tr.TLSClientConfig != nil {
 		f.hasTLS, f.serverName, f.skip = true, tr.TLSClientConfig.ServerName, tr.TLSClientConfig.InsecureSkipVerify
 	}
+	// every other exported field of http.Transport that limits or changes connection handling:
+	// NewTransport leaves them at their zero value (found by reflection, so fields added by a
+	// newer Go are covered too)
+	known := map[string]bool{"ResponseHeaderTimeout": true, "IdleConnTimeout": true, "MaxIdleConnsPerHost": true, "Dial": true, "TLSClientConfig": true}
+	v := reflect.ValueOf(tr).Elem()
+	for i := 0; i < v.NumField(); i++ {
+		ft := v.Type().Field(i)
+		if !ft.IsExported() || known[ft.Name] {
+			continue
+		}
+		if !v.Field(i).IsZero() {
+			f.other++
+			f.otherNames = append(f.otherNames, ft.Name)
+		}
+	}
 	return f
 }
 func (f trFields) coq() string {
@@ -113,8 +131,8 @@ func (f trFields) coq() string {
 	if f.hasTLS {
 		tlsc = vh.Some(fmt.Sprintf("{| tls_server_name := %s; tls_skip_verify := %s |}", vh.HxS(f.serverName), vh.Bool(f.skip)))
 	}
-	return fmt.Sprintf("{| t_rht := %s; t_idle := %s; t_maxidle := %s; t_dial := %s; t_keepalive := %s; t_tls := %s |}",
-		vh.Z(f.rht), vh.Z(f.idle), vh.Z(f.maxidle), vh.Z(f.dial), vh.Z(f.keepalive), tlsc)
+	return fmt.Sprintf("{| t_rht := %s; t_idle := %s; t_maxidle := %s; t_dial := %s; t_keepalive := %s; t_tls := %s; t_other := %s |}",
+		vh.Z(f.rht), vh.Z(f.idle), vh.Z(f.maxidle), vh.Z(f.dial), vh.Z(f.keepalive), tlsc, vh.Z(f.other))
 }
 
 type timeoutErr struct{ to bool }
@@ -168,7 +186,7 @@ func main() {
 				f := fieldsOf(tr, dialOK, cur)
 				ops = append(ops, vh.App("NewTransport", tcoq))
 				impl = append(impl, f.coq())
-				sample = append(sample, fmt.Sprintf("NewTransport -> rht=%v idle=%v maxidle=%d dial=%v ka=%v", time.Duration(f.rht), time.Duration(f.idle), f.maxidle, time.Duration(f.dial), time.Duration(f.keepalive)))
+				sample = append(sample, fmt.Sprintf("NewTransport -> rht=%v idle=%v maxidle=%d dial=%v ka=%v other=%v", time.Duration(f.rht), time.Duration(f.idle), f.maxidle, time.Duration(f.dial), time.Duration(f.keepalive), f.otherNames))
 			}
 		}
 		run.Add("history", vh.App("CHist", s0.coq(), vh.List(ops), vh.List(impl)), map[string]interface{}{"ops": sample})
